@@ -22,6 +22,7 @@ type recoverCase struct {
 	Ops     []CoreOp  `json:"ops"`     // the history of core A up to the crash
 	Shuffle uint64    `json:"shuffle"` // seed of the replay order
 	Cont    int       `json:"cont"`    // scheduling cycles on B after the replay
+	Shrink  bool      `json:"shrink,omitempty"` // before the crash, lower the capacity of a node below its usage (turned into an explicit node_update op by the run)
 	TightB  bool      `json:"tightb"`  // core B starts with every queue maximum, user limit and max-applications shrunk (quotas far below what is replayed)
 	// filled by the run
 	a      *CoreObs
@@ -172,6 +173,28 @@ func recoverRun(c *recoverCase) error {
 			}
 		}
 	}
+	if c.Shrink {
+		// over-commit a node: capacity drops to half of what is in use on it
+		c.Shrink = false
+		r := NewRng(c.Shuffle ^ 0x5bd1e995)
+		var used []int
+		for i := range c.a.Nodes {
+			if len(c.a.Nodes[i].Allocs)+len(c.a.Nodes[i].Foreign) > 0 {
+				used = append(used, i)
+			}
+		}
+		if len(used) > 0 {
+			n := &c.a.Nodes[used[r.Intn(len(used))]]
+			cp := reloadCloneRes(n.Total)
+			for t := range cp {
+				if u := n.Allocated[t] + n.Occupied[t]; u > 0 {
+					cp[t] = max(1, u/2)
+				}
+			}
+			c.Ops = append(c.Ops, CoreOp{Kind: "node_update", Node: n.ID, Cap: cp})
+			c.a = da.step(&c.Ops[len(c.Ops)-1]).Obs
+		}
+	}
 	// the shim's knowledge and the replay order
 	rops, deps := recoverReplayOps(c.a, c.Ops, accepted)
 	order := recoverOrder(NewRng(c.Shuffle), len(rops), deps)
@@ -196,9 +219,45 @@ func recoverRun(c *recoverCase) error {
 	}
 	c.nrep = len(order)
 	c.cont = CoreCase{World: wb, Init: db.observe()}
+	contStep := func(op CoreOp) *CoreObs {
+		c.cont.Ops = append(c.cont.Ops, op)
+		st := db.step(&c.cont.Ops[len(c.cont.Ops)-1])
+		c.cont.Steps = append(c.cont.Steps, st)
+		return st.Obs
+	}
+	last := c.cont.Init
 	for i := 0; i < c.Cont; i++ {
-		c.cont.Ops = append(c.cont.Ops, CoreOp{Kind: "sched"})
-		c.cont.Steps = append(c.cont.Steps, db.step(&c.cont.Ops[len(c.cont.Ops)-1]))
+		last = contStep(CoreOp{Kind: "sched"})
+	}
+	// the shim releases one allocation (from the most over-committed node if there is one) and an application asks
+	// for slightly less than what was released: a node whose free space is booked wrongly shows it now
+	var pick *ObsAlloc
+	worst := int64(1 << 62)
+	for i := range last.Nodes {
+		n := &last.Nodes[i]
+		low := int64(1 << 62)
+		for _, v := range n.Available {
+			if v < low {
+				low = v
+			}
+		}
+		for j := range n.Allocs {
+			if a := &n.Allocs[j]; !a.Released && !a.Ph && (pick == nil || low < worst) {
+				pick, worst = a, low
+			}
+		}
+	}
+	if pick != nil {
+		contStep(CoreOp{Kind: "release", App: pick.App, Key: pick.Key, TType: 1})
+		ask := CoreRes{}
+		for t, v := range pick.Res {
+			ask[t] = max(1, v-1)
+		}
+		contStep(CoreOp{Kind: "alloc", App: pick.App, Key: "after-restart-1", Res: ask, AgeSec: 3600})
+		contStep(CoreOp{Kind: "alloc", App: pick.App, Key: "after-restart-2", Res: CoreRes{coreTypes[0]: 1}, AgeSec: 3600})
+		for i := 0; i < 3; i++ {
+			contStep(CoreOp{Kind: "sched"})
+		}
 	}
 	return nil
 }
@@ -216,7 +275,7 @@ func recoverGenCase(rng *Rng, maxOps int) (*recoverCase, error) {
 	if k > len(c.Ops) {
 		k = len(c.Ops)
 	}
-	rc := &recoverCase{World: c.World, Ops: append([]CoreOp{}, c.Ops[:k]...), Shuffle: rng.Next(), Cont: 4 + rng.Intn(4), TightB: rng.Chance(50)}
+	rc := &recoverCase{World: c.World, Ops: append([]CoreOp{}, c.Ops[:k]...), Shuffle: rng.Next(), Cont: 2 + rng.Intn(3), TightB: rng.Chance(50), Shrink: rng.Chance(45)}
 	if err := recoverRun(rc); err != nil {
 		return nil, err
 	}
@@ -304,6 +363,14 @@ func recoverEngine(o *Opts) {
 		st.Distribution["replay.apps"] += len(c.a.Apps)
 		if c.TightB {
 			st.Count("restart.with-shrunk-quotas")
+		}
+		for j := range c.a.Nodes {
+			for _, v := range c.a.Nodes[j].Available {
+				if v < 0 {
+					st.Count("crash.overcommitted-node")
+					break
+				}
+			}
 		}
 		if inflight {
 			st.Count("crash.inflight-swap")
